@@ -186,7 +186,10 @@ def run_job(job, keep_graph=False):
         rs = dict(params=True, rng=True, inputs=True, state=True, output=True)
     g.set_record_settings(max_records=job.get("max_records", None), **rs)
     gs0 = g.init(jax.random.PRNGKey(job.get("seed", 0)))
-    g.warmup(gs0, jit_step=jit_step)
+    if job.get("profile") is not None:
+        g.warmup(gs0, jit_step=jit_step, profile=job["profile"])  # a partial dict: unlisted nodes must not be test-run
+    else:
+        g.warmup(gs0, jit_step=jit_step)
     out = dict(episodes=[], obs=[], finished=False, exc=None, calls=[])
 
     def user():
